@@ -134,7 +134,8 @@ let () =
            let old_cs = comps_of (Caseio.get_mat c "old_means") (Caseio.get_mat c "old_covs") n in
            let old_ws = flist (Caseio.get_mat c "old_weights") in
            let ((res, w), lik) =
-             c04_correct fops sq_oracle eg_oracle (nat_of_int n) (nat_of_int q) (nat_of_int m) generic alpha beta kappa skip a r y fail cs ws old_cs old_ws in
+             let warm = if Caseio.has c "warm" && Caseio.get_int c "warm" <> 0 then Some (lmx_of_mat (Caseio.get_mat c "y0")) else None in
+             c04_correct fops sq_oracle eg_oracle (nat_of_int n) (nat_of_int q) (nat_of_int m) generic alpha beta kappa skip a r y fail warm cs ws old_cs old_ws in
            Caseio.out_int "components" (List.length res);
            List.iteri (fun i (mean, cov) ->
                Caseio.out_mat_shape (Printf.sprintf "mean%d" i) n 1 (mat_of_lmx mean);
